@@ -186,3 +186,56 @@ func ParseOut(b []byte) (pkts []OutPkt, ok bool) {
 	}
 	return pkts, true
 }
+
+// Pipe returns two connected scripted transports: what one end writes becomes readable at
+// the other; Close of either end makes both ends' pending and later calls fail (EOF on the
+// peer's reads).
+func Pipe() (*PipeEnd, *PipeEnd) {
+	a, b := &PipeEnd{}, &PipeEnd{}
+	a.peer, b.peer = b, a
+	return a, b
+}
+
+// PipeEnd is one end of an in-memory duplex byte pipe (unbounded buffering: writes never block).
+type PipeEnd struct {
+	peer    *PipeEnd
+	in      []byte
+	CanRead bool
+	Closed  bool
+	Closes  int
+	Written []byte
+}
+
+func (p *PipeEnd) Read(b []byte) (int, error) {
+	vrt.WaitFor(&p.CanRead)
+	if p.Closed {
+		return 0, ErrTransportClosed
+	}
+	if len(p.in) == 0 {
+		return 0, io.EOF // the peer went away
+	}
+	n := copy(b, p.in)
+	p.in = p.in[n:]
+	if len(p.in) == 0 && !p.peer.Closed {
+		p.CanRead = false
+	}
+	return n, nil
+}
+
+func (p *PipeEnd) Write(b []byte) (int, error) {
+	if p.Closed || p.peer.Closed {
+		return 0, ErrTransportClosed
+	}
+	p.Written = append(p.Written, b...)
+	p.peer.in = append(p.peer.in, b...)
+	p.peer.CanRead = true
+	return len(b), nil
+}
+
+func (p *PipeEnd) Close() error {
+	p.Closes++
+	p.Closed = true
+	p.CanRead = true
+	p.peer.CanRead = true
+	return nil
+}
